@@ -122,10 +122,13 @@ Allowed == [a \in Attrs |->
 Within(f) == \A a \in Attrs : f[a] \subseteq Allowed[a]
 \* no over-filtering in the plain case: no declaration, no categories -> everything the restrictions allow
 MustReleaseAll == ~EcInForce(scn.policy) /\ Declared(scn.decl) = {}
+\* the ways a release is asked for: an authentication response, the answer to an attribute query, the answer to an attribute
+\* query that names the attributes it is after.  The bound is the same on each: naming an attribute adds no right to it.
+Paths == {"authn", "attribute", "attribute_named"}
 
 Emit == /\ pc = "done" /\ pc' = "emitted" /\ UNCHANGED <<scn, ava, outcome>>
         /\ PrintT(<<"CASE", ToJson([scn |-> scn, model |-> ava, allowed |-> Allowed, raises |-> Raises,
-                                    mustReleaseAll |-> MustReleaseAll])>>)
+                                    mustReleaseAll |-> MustReleaseAll, paths |-> Paths])>>)
 Next == Apply \/ BestEffort \/ Construct \/ Emit
 Spec == Init /\ [][Next]_vars
 PipelineMeetsContract == pc \in {"done", "emitted"} => Within(ava) /\ (MustReleaseAll => ava = Allowed)
